@@ -1782,6 +1782,11 @@ class ContentFile(File):
     classes = ContentFileClasses()
 
     def _calc_hash(self) -> str:
+        if not self.filesystem.isfile(self.path):
+            # A missing file has a deterministic hash (like File), so that a cached value whose
+            # file was deleted is reported as invalid instead of raising.
+            return hash_struct([self.type_basename, self.path, ""])
+
         # Use filesystem.open() to avoid triggering a recursive hash update.
         with self.filesystem.open(self.path, mode="rb") as infile:
             content_hash = hash_stream(infile)
